@@ -81,6 +81,8 @@ pub struct AObs {
     /// background jobs that had finished when the operation was *issued*
     pub finished_at_issue: u64,
     pub finished_at_return: u64,
+    /// state word of every system at the instant of return (empty unless C05 compares)
+    pub states: Vec<u64>,
 }
 
 #[derive(Default)]
@@ -89,6 +91,8 @@ struct Snap {
     active: AtomicI64,
     runs: AtomicU64,
     finished: AtomicU64,
+    /// the systems' state words at that instant (C05 comparison only)
+    states: std::sync::Mutex<Vec<u64>>,
 }
 
 pub struct AsyncOut {
@@ -155,6 +159,9 @@ pub fn run_async(b: &mut BuiltAsync, sc: &Scenario, spec: &StratSpec, seed: u64,
                     snap.active.store(ctx.active.load(Ordering::SeqCst), Ordering::SeqCst);
                     snap.runs.store(ord.iter().map(|&s| ctx.states[s].run.load(Ordering::SeqCst)).sum(), Ordering::SeqCst);
                     snap.finished.store(rayon::stats::SPAWN_FINISHED.load(Ordering::SeqCst), Ordering::SeqCst);
+                    if COMPARE_WITH_SEQ.load(Ordering::Relaxed) {
+                        *snap.states.lock().unwrap() = ctx.states.iter().map(|s| s.state.load(Ordering::SeqCst)).collect();
+                    }
                     snap.set.store(true, Ordering::SeqCst);
                     if let Some(i) = new_inst {
                         // a new dispatch begins: only now do its instance number and its
@@ -203,6 +210,7 @@ pub fn run_async(b: &mut BuiltAsync, sc: &Scenario, spec: &StratSpec, seed: u64,
                 dispatched: dispatched_before,
                 finished_at_issue,
                 finished_at_return: snap.finished.load(Ordering::SeqCst),
+                states: std::mem::take(&mut *snap.states.lock().unwrap()),
             });
         }
         detsim::yield_with_info(PH_CALLER);
@@ -441,10 +449,88 @@ pub struct AsyncEval {
     pub blocked_ops: u64,
 }
 
+/// C05 for the async dispatcher: compare the end state with a sequential twin (set by the C05
+/// check only; one more build and run per execution).
+pub static COMPARE_WITH_SEQ: std::sync::atomic::AtomicBool = std::sync::atomic::AtomicBool::new(false);
+
+/// The same work done sequentially by a synchronous twin: every dispatch operation becomes a
+/// `dispatch_seq`, every `wait` a `dispatch_thread_local`.
+fn compare_with_sequential_twin(sc: &Scenario, ao: &AsyncOut, out: &mut Vec<Violation>) {
+    if !ao.ro.escaped.is_empty() || !matches!(ao.ro.outcome, detsim::Outcome::Done) {
+        return;
+    }
+    let mut s2 = sc.clone();
+    s2.asyncd = false;
+    s2.aops.clear();
+    s2.faults.clear();
+    s2.calls = sc
+        .aops
+        .iter()
+        .filter_map(|o| match o {
+            AOp::Dispatch => Some(crate::plan::Call::DispatchSeq),
+            AOp::Wait => Some(crate::plan::Call::DispatchTl),
+            _ => None,
+        })
+        .collect();
+    let mut twin = build(&s2, &BuildOpts::default());
+    let rr = crate::run::run_calls(&mut twin, &s2, &StratSpec::NoPreempt, 0, None);
+    if rr.calls.iter().any(|c| c.panic.is_some()) {
+        return;
+    }
+    // at the instant a blocking accessor returns, every ordinary system must be where the
+    // sequential twin is after the same number of dispatches (a caller that holds the world
+    // through a shared handle can look at it from that instant on)
+    let inf = infos(&sc.regs);
+    for (oi, o) in ao.obs.iter().enumerate() {
+        if !matches!(o.op, AOp::Wait | AOp::WaitNoTl | AOp::World | AOp::WorldMut) || o.states.is_empty() {
+            continue;
+        }
+        let mut s3 = s2.clone();
+        s3.calls = sc.aops[..oi]
+            .iter()
+            .filter_map(|o| match o {
+                AOp::Dispatch => Some(crate::plan::Call::DispatchSeq),
+                AOp::Wait => Some(crate::plan::Call::DispatchTl),
+                _ => None,
+            })
+            .collect();
+        let r3 = crate::run::run_calls(&mut twin, &s3, &StratSpec::NoPreempt, 0, None);
+        if r3.calls.iter().any(|c| c.panic.is_some()) {
+            continue;
+        }
+        if let Some(i) = inf.iter().find(|i| i.kind != Kind::Tl && o.states.get(i.sid) != r3.final_states.get(i.sid)) {
+            out.push(vio(
+                "C05",
+                "state-at-return-differs",
+                format!("operation #{} ({:?}) returned, but system {} is not in the state it has after the same {} dispatch(es) done sequentially (it had not finished, or ran a different number of times)", oi, o.op, i.sid, s3.calls.iter().filter(|c| **c == crate::plan::Call::DispatchSeq).count()),
+            ));
+            crate::dfamily::eval_dispose(twin);
+            return;
+        }
+    }
+    for (l, (a, c)) in ao.ro.final_world.iter().zip(rr.final_world.iter()).enumerate() {
+        if a.map(|x| x.v) != c.map(|x| x.v) {
+            out.push(vio("C05", "world-differs", format!("logical resource {}: value after the asynchronous dispatches {:?}, after the same work dispatched sequentially {:?}", l, a.map(|x| x.v), c.map(|x| x.v))));
+            crate::dfamily::eval_dispose(twin);
+            return;
+        }
+    }
+    for sid in 0..ao.ro.final_states.len().min(rr.final_states.len()) {
+        if ao.ro.final_states[sid] != rr.final_states[sid] || ao.ro.obs[sid] != rr.obs[sid] {
+            out.push(vio("C05", "system-state-differs", format!("system {}: state / observation log after the asynchronous dispatches differs from the sequential twin ({} vs {} observations)", sid, ao.ro.obs[sid].len(), rr.obs[sid].len())));
+            break;
+        }
+    }
+    crate::dfamily::eval_dispose(twin);
+}
+
 pub fn eval_async_on(b: &mut BuiltAsync, sc: &Scenario, strat: &StratSpec, rs: u64, trace: Option<Vec<u32>>) -> AsyncEval {
     let ao = run_async(b, sc, strat, rs, trace);
     let infos = &b.ctx.infos;
     let mut out = Vec::new();
+    if COMPARE_WITH_SEQ.load(Ordering::Relaxed) && !b.broken {
+        compare_with_sequential_twin(sc, &ao, &mut out);
+    }
     let h = history(&ao.ro.events, infos);
     let ov = check_isolation(&h, infos, &mut out);
     check_borrow_noise(sc, &ao.ro, &mut out);
